@@ -192,6 +192,23 @@ def case_planes(ctx, cfg):
         if e is not None or not close(d, want, 1e-7):
             ctx.fail(f"dist:plane-plane:{type(e).__name__ if e is not None else 'value'}", "dist", {"normal": n_, "c1": c1, "c2": c2, "scale": s}, want, e if e is not None else d)
             return
+    # the same pairs as collections: (k,) x (k,), single x (k,), (k,) x single, and a (2, k/2) grid
+    combos = list(itertools.product((-2, 0, 1, 3), (-1, 0, 2), (1, 2, -1)))
+    A1 = np.array([list(n_) + [c1] for c1, c2, s in combos], dtype=float)
+    A2 = np.array([[s * x for x in n_] + [s * c2] for c1, c2, s in combos], dtype=float)
+    wants = np.array([abs(c1 - c2) / norm(n_) for c1, c2, s in combos])
+    forms = (
+        ("coll-coll", lambda: G.dist(G.PlaneCollection(A1), G.PlaneCollection(A2)), wants),
+        ("single-coll", lambda: G.dist(G.Plane(A1[0]), G.PlaneCollection(A2)), np.array([abs(combos[0][0] - c2) / norm(n_) for c1, c2, s in combos])),
+        ("coll-single", lambda: G.dist(G.PlaneCollection(A1), G.Plane(A2[1])), np.array([abs(c1 - combos[1][1]) / norm(n_) for c1, c2, s in combos])),
+        ("grid-grid", lambda: G.dist(G.PlaneCollection(A1.reshape(2, -1, 4)), G.PlaneCollection(A2.reshape(2, -1, 4))), wants.reshape(2, -1)),
+    )
+    for name, fn, w in forms:
+        d, e = ctx.call(fn)
+        ctx.trace(len(combos))
+        if e is not None or np.shape(d) != w.shape or not np.allclose(d, w, atol=1e-7):
+            ctx.fail(f"dist:plane-plane:{name}:{type(e).__name__ if e is not None else 'shape' if np.shape(d) != w.shape else 'value'}", "dist", {"normal": n_, "form": name}, w, e if e is not None else d)
+            return
 
 
 # ---------------------------------------------------------------------------------------------------
